@@ -912,7 +912,7 @@ def run_symbolic(scen, cfg, lib, limits=None, known=None, prop='?', cfg_name='?'
                 rep = replay_values(scen, cfg, vals, name)
                 if not rep['reproduced'] and isinstance(cond, SB) and cond.rf is not None:
                     # the plain model sits on a floating-point boundary: ask for a violation with a margin
-                    r2, m2, dt2, s2 = prove(c.facts() + extra + [cond.rf], z3.BoolVal(False), q_timeout)
+                    r2, m2, dt2, s2 = prove((c.pc + c.axioms if nodefs else c.facts()) + extra, z3.Not(cond.rf), q_timeout)
                     res['solver_s'] += dt2
                     res['queries'] += 1
                     if r2 == 'sat':
@@ -920,6 +920,11 @@ def run_symbolic(scen, cfg, lib, limits=None, known=None, prop='?', cfg_name='?'
                         rep2 = replay_values(scen, cfg, vals2, name)
                         if rep2['reproduced']:
                             vals, rep = vals2, rep2
+                        else:
+                            rep = dict(rep, detail=rep['detail'] + f'; robust model also not reproduced: {rep2["detail"]}')
+                            vals = vals2
+                    else:
+                        rep = dict(rep, detail=rep['detail'] + f'; robust query: {r2}')
                 if rep['reproduced']:
                     hit = match_known(known, prop, cfg_name, name, vals, rep)
                     rec = {'config': cfg_name, 'check': name, 'values': _jsonable(vals), 'observed': rep['detail'],
